@@ -299,6 +299,18 @@ def directed_cases(rng, n):
         out.append(("asm_block_strict_confirming_round", None,
                     "#ruledef\n{\n%s    m {p} => asm {\n        nop\n        ld {p} * 1\n    }\n}\n%s\nm kk - l0\nl0:\n%s\nkk = $\n" % (base, pre, post + '\nnop'),
                     "#ruledef\n{\n%s}\n%s\nnop\nld kk - l0 * 1\nl0:\n%s\nkk = $\n" % (base, pre, post + '\nnop')))
+        # an argument that is a NESTED label of the calling scope (`.loop`, `start.loop`) or a global, substituted as text
+        # into the block: it means what it means at the call site (the block runs in the scope of the calling instruction)
+        g1, g2 = rng.choice(['start', 'main', 'entry']), rng.choice(['table', 'tail'])
+        loc = rng.choice(['loop', 'again', 'l1'])
+        arg = rng.choice(['.' + loc, g1 + '.' + loc, g1, '.' + loc + ' + 1', g2 + '.' + loc])
+        body_m = "%s:\n%s\n.%s:\nnop\ndjnz %s\n%s\n%s:\n.%s:\nnop\ndjnz .%s\n" % (g1, pre, loc, arg if not arg.startswith(g2) else '.' + loc, post, g2, loc, arg.split('.')[-1] if arg.startswith(g2) else loc)
+        body_i = body_m
+        import re as _re
+        body_i = _re.sub(r"^djnz (.*)$", lambda m_: "nop\njmp " + m_.group(1), body_m, flags=_re.M)
+        out.append(("asm_argument_nested_label", None,
+                    "#ruledef\n{\n%s    djnz {target} => asm {\n        nop\n        jmp {target}\n    }\n}\n%s" % (base, body_m),
+                    "#ruledef\n{\n%s}\n%s" % (base, body_i)))
         # F66: argument text naming something local to the calling block, handed on to a nested macro
         glob = ('%s:\n' % lbl) if rng.chance(0.5) else ''
         out.append(("asm_nested_argument_scope", "F66",
